@@ -16,7 +16,7 @@ var histOpsAll = map[string]bool{"create": true, "sched": true, "delete": true, 
 
 // histOpsSync adds the pod-IP sync path: pods become Running, the store is lost and galaxy-ipam restarted (migration to an empty
 // store, which is what syncPodIPsIntoDB exists for), and the periodic pod-IP sync re-adopts the IPs of running pods.
-var histOpsSync = map[string]bool{"create": true, "sched": true, "delete": true, "deliver": true, "drop": true,
+var histOpsSync = map[string]bool{"create": true, "sched": true, "delete": true, "finish": true, "deliver": true, "drop": true,
 	"resync": true, "run": true, "storeloss": true, "syncpodips": true}
 
 var histClasses = []wkClass{
@@ -37,7 +37,11 @@ func histSystems(cloud bool) []*HistSys {
 		if c.Kind == "dp" || c.Kind == "dppool" {
 			// one replica, two pod names: the replacement of a deleted pod carries another name, and it may be scheduled before or
 			// after the old pod's delete event is handled
-			out = append(out, &HistSys{Class: c, Cfg: cfgTwoPools(cloud), NPods: 2, Replicas: 1, Ops: histOpsAll, PrefixName: "onereplica"})
+			opsFF := map[string]bool{"filterfault": true}
+			for k, v := range histOpsAll {
+				opsFF[k] = v
+			}
+			out = append(out, &HistSys{Class: c, Cfg: cfgTwoPools(cloud), NPods: 2, Replicas: 1, Ops: opsFF, PrefixName: "onereplica"})
 			// the same with a surge of one: the replacement may exist next to the pod it replaces (status.replicas > spec.replicas)
 			out = append(out, &HistSys{Class: c, Cfg: cfgTwoPools(cloud), NPods: 2, Replicas: 1, Surge: 1, Ops: histOpsAll, PrefixName: "onereplica-surge"})
 		}
@@ -205,7 +209,7 @@ func c02Model(h *HistSys, hist []Op, w *world.World) (*Finding, string) {
 					}
 				}
 			}
-		case "sched", "schedcf", "schedlost":
+		case "sched", "schedcf", "schedlost", "schedff", "schedff2":
 			if o.Err != "" || len(o.IPs) == 0 {
 				break
 			}
@@ -491,12 +495,20 @@ func oracleC03(h *HistSys, hist []Op, w *world.World, obs Obs) *Finding {
 			recorded[s.IP] = true
 		}
 	}
-	quiesce(pw)
+	// (where the pod-IP sync is in the alphabet the closure is one whole periodic tick, as galaxy-ipam runs it: the resync pass
+	// followed by the pod-IP sync)
+	tick := func(x *world.World) {
+		quiesce(x)
+		if h.Ops["syncpodips"] {
+			x.SyncPodIPs()
+		}
+	}
+	tick(pw)
 	q1 := pw.MemDump()
 	// q2: quiescent successor (w is not reused by the BFS after the oracle)
 	cBefore := Canon(w)
 	_ = cBefore
-	quiesce(w)
+	tick(w)
 	q2 := w.MemDump()
 	cnt2 := prefixCounter(q2)
 	// (i) no IP stays assigned unless its policy reserves it. A leak is attributed to the transition that created it:
